@@ -149,6 +149,11 @@ def discharge(ex, rep, name, goal, on_sat=None, timeout_ms=None, **kw):
 def _discharge(ex, rep, name, goal, on_sat=None, timeout_ms=None, **kw):
     """Prove ``goal`` on the current path of ``ex``; record; on sat call on_sat(model, env) -> (signature, description, inputs)."""
     from .explorer import model_env, DefaultEnv
+    if not ex.cone_feasible(goal):
+        rep.record(name, "unknown")
+        rep.inconclusive_item(name, "VACUOUS: the assumptions in the obligation's cone of influence are unsatisfiable (harness error)")
+        from .explorer import Verdict
+        return Verdict("unknown")
     v = ex.prove(goal, timeout_ms=timeout_ms, **kw)
     rep.record(name, v.status, v.seconds)
     if v.status == "sat":
